@@ -269,3 +269,48 @@ def _mut_trim_always(fn):
             s.test = ast.parse('serializeID is not None').body[0].value
             cnt += 1
     return cnt
+
+
+# ------------------------------------------------------------------------------------------------ SyncObjConsumer (de)serialisation
+@unit(name='consumer.serialize', relpath=MOD, qual=['SyncObjConsumer._serialize', 'SyncObjConsumer._deserialize', 'SyncObjConsumer.__init__'], props=['C15', 'C09'],
+      doc='consumer snapshot round trip: _serialize returns exactly the attributes created after SyncObjConsumer.__init__ (not _syncObj, '
+          'not the bookkeeping set), and _deserialize of that dict on a fresh consumer restores exactly those values',
+      canaries=[('serialize-everything', lambda mod: mutate_function(mod, 'SyncObjConsumer._serialize', _mut_serialize_all), ['consumer.serialize-only-user-attributes'])])
+def consumer_serialize(ctx):
+    mod = source.load(MOD)
+    I = Interp(ctx, inline={'iteritems'}, hooks={})
+    obj = ctx.alloc(PObj('SyncObjConsumer', {}))
+    fn, ci = mod.find('SyncObjConsumer.__init__')
+    I.call_funcdef(fn, mod, 'SyncObjConsumer', obj, [], {}, None, 'SyncObjConsumer.__init__')
+    props_ = ctx.cell(obj).fields.get('_SyncObjConsumer__properies')
+    ctx.prove(props_ is not None, 'C15+C09:consumer.init-records-base-attributes')
+    # __properies is a set of attribute names: model as a list of the names recorded by the real __init__
+    if isinstance(props_, Ref) and isinstance(ctx.cell(props_), (NSet,)):
+        raise Undecided('attribute-name set modelled as node set')
+    a, b = Opaque('uservalue', FreshInt('a')), Opaque('uservalue', FreshInt('b'))
+    c = ctx.cell(obj)
+    ctx.setcell(obj, c.with_field('_ReplX__data', a).with_field('_ReplX__maxsize', b))
+    fn, ci = mod.find('SyncObjConsumer._serialize')
+    d = I.call_funcdef(fn, mod, 'SyncObjConsumer', obj, [], {}, None, 'SyncObjConsumer._serialize')
+    dc = ctx.cell(d)
+    ctx.prove(isinstance(dc, PDict) and set(dc.items) == {'_ReplX__data', '_ReplX__maxsize'} and dc.items['_ReplX__data'] is a and dc.items['_ReplX__maxsize'] is b,
+              'C15+C09:consumer.serialize-only-user-attributes', info=repr(sorted(dc.items)) if isinstance(dc, PDict) else repr(dc))
+    fresh = ctx.alloc(PObj('SyncObjConsumer', {}))
+    fn, ci = mod.find('SyncObjConsumer.__init__')
+    I.call_funcdef(fn, mod, 'SyncObjConsumer', fresh, [], {}, None, 'SyncObjConsumer.__init__')
+    so_marker = Opaque('syncobj', 1)
+    ctx.setcell(fresh, ctx.cell(fresh).with_field('_syncObj', so_marker).with_field('_ReplX__data', Opaque('uservalue', FreshInt('stale'))))
+    fn, ci = mod.find('SyncObjConsumer._deserialize')
+    I.call_funcdef(fn, mod, 'SyncObjConsumer', fresh, [d], {}, None, 'SyncObjConsumer._deserialize')
+    f = ctx.cell(fresh).fields
+    ctx.prove(f.get('_ReplX__data') is a and f.get('_ReplX__maxsize') is b, 'C15+C09:consumer.deserialize-restores-values')
+    ctx.prove(f.get('_syncObj') is so_marker, 'C15+C09:consumer.deserialize-keeps-binding')
+
+
+def _mut_serialize_all(fn):
+    cnt = 0
+    for n in ast.walk(fn):
+        if isinstance(n, ast.ListComp) and n.generators[0].ifs:
+            n.generators[0].ifs = []
+            cnt += 1
+    return cnt
